@@ -101,6 +101,10 @@ def run(ck, ctx):
                      "every path to the next stream.read (or out of the handler) passes the decoder (try_execute_command); whether a "
                      "frame is complete is decided by the decoder on the whole buffer, never guessed from the last read alone (a read "
                      "that carries only the tail of a frame - e.g. the LF of a CRLF split across reads - completes it)")
+    ck.rule("R04.9", "a connection starts on empty buffers: a BytesMut that goes back into a buffer pool (ArrayQueue<BytesMut>::push) is fresh "
+                     "or was cleared on every path to the push - or every pop side clears before handing it out; a handler releases its "
+                     "input buffer with whatever unparsed bytes the last client left in it, and the next connection that acquires the "
+                     "buffer would have them prepended to its own first command")
     ck.nd("that each reply equals the stand-alone reply (C01/C03)")
     ck.nd("segmentation behaviour beyond 'NeedMoreData consumes nothing' (RespCodec's incomplete-input contract is C15)")
     for cfg in ctx.configs:
@@ -113,6 +117,7 @@ def run(ck, ctx):
         _r046(ck, prog, cfg)
         from . import c15
         c15.prefix_rule(ck, prog, cfg, "R04.7")
+        _r049(ck, prog, cfg)
 
 
 # ---------------------------------------------------------------------------------------------
@@ -538,3 +543,43 @@ def _recogniser_live(prog, cname):
         if rv["k"] == "agg" and rv["n"] == "std::ops::RangeFrom" and "c" in rv["ops"][0] and "v" in rv["ops"][0]:
             offs.add(int(rv["ops"][0]["v"]))
     return bool(lens) and lens == offs
+
+
+# ---------------------------------------------------------------------------------------------
+def _r049(ck, prog, cfg):
+    """recycled buffers are empty"""
+    pushes, pops = [], []
+    for f in prog.lib_fns():
+        if "::tests::" in f.id:
+            continue
+        for b, t in f.calls():
+            if is_callee(t, r"ArrayQueue::<bytes::BytesMut>::push$"):
+                pushes.append((f, b, t))
+            elif is_callee(t, r"ArrayQueue::<bytes::BytesMut>::pop$"):
+                pops.append((f, b, t))
+    ck.floor("R04.9" + _tag(cfg), len(pushes), 2)
+    # pop side: does every function that pops clear what it popped before returning it?
+    pop_clears = bool(pops)
+    for f, b, t in pops:
+        clears = {bb for bb, tt in f.calls() if is_callee(tt, r"BytesMut::clear$")}
+        okp, _ = all_paths_hit(f, (b, len(f.blocks[b]["st"])), lambda bb, i0: bb in clears)
+        if not okp:
+            pop_clears = False
+    k = 0
+    for f, b, t in sorted(pushes, key=lambda x: (x[0].id, x[2]["ln"])):
+        k += 1
+        src = src_of_operand(f, t["args"][1])
+        fresh = src.kind == "call" and is_callee(src.term, r"BytesMut::(with_capacity|new|zeroed)$")
+        cleared = False
+        if not fresh:
+            al = lib2.value_aliases(f, op_local(t["args"][1])) if op_local(t["args"][1]) is not None else set()
+            for bb, tt in f.calls():
+                if is_callee(tt, r"BytesMut::clear$") and f.dominates(bb, b) and bb != b:
+                    r = src_of_operand(f, tt["args"][0])
+                    rl = r.local if r.kind in ("path", "multi") else None
+                    if rl is None or not al or rl in al or (r.kind == "path" and src.kind == "path" and r.root == src.root):
+                        cleared = True
+        ck.check(fresh or cleared or pop_clears, "R04.9", "%s:push#%d%s" % (f.id.replace("production::", "").replace("redis::", ""), k, _tag(cfg)),
+                 "a buffer is returned to the pool on a path that does not clear it (and the acquiring side does not clear either): the next "
+                 "connection that takes this buffer starts with the previous client's unparsed bytes (or unsent replies) in front of its own",
+                 f.where(t["ln"]), detail="fresh buffer" if fresh else ("clear() dominates the push" if cleared else "every pop clears"))
